@@ -25,12 +25,23 @@ def check(run, replay, prop):
             if not os.path.exists(out):
                 raise vlib.Infra("no NodeOps behaviours exported")
             files.append(out)
+        # every shape of the version tree and every walk of the active version over it (exhaustive, schema operations only)
+        out = os.path.join(run.tmp, "node-schema.ndjson")
+        run.tlc("NodeOps_gen.tla", "gen_schema.cfg", workers=4, timeout=900, env={"VERIF_OUT": out},
+                cfg_text=MC.format(docs="{1}", maxver=4, maxval=0, steps=8 if thorough else 7, anytime="FALSE", body="ACTION_CONSTRAINT ExportLeaves").replace("SPECIFICATION Spec", "SPECIFICATION SchemaSpec").replace("VIEW view\n", ""),
+                label="GEN_NodeOps_schema(exhaustive)")
+        if not os.path.exists(out):
+            raise vlib.Infra("no schema-only behaviours exported")
+        files.append(out)
     viol, tot = [], dict(behaviours=0, steps=0, restarts=0, comparisons=0)
     byop = {}
     for i, f in enumerate(files):
         out = os.path.join(run.tmp, "noderes-%d.json" % i)
         try:
-            run.run_driver(binary, ["-beh", f, "-out", out] + ([] if replay else ["-budget", "600s" if thorough else "60s"]), timeout=4000)
+            extra = [] if replay else ["-budget", "600s" if thorough else "60s"]
+            if f.endswith("node-schema.ndjson") and not thorough:
+                extra += ["-stride", "3", "-offset", str(run.seed % 3)]
+            run.run_driver(binary, ["-beh", f, "-out", out] + extra, timeout=4000)
         except vlib.Crash as c:
             viol.append({"property": prop, "kind": "node-panic", "msg": "DefraDB panicked (restart / schema evolution run): %s\n%s" % (c.head, c.stack[:1500])})
             continue
